@@ -718,8 +718,12 @@ class ExcludeRegionState(object):  # pylint: disable=too-many-instance-attribute
             returnCommands = self.exitExcludedRegion(cmd)
         elif (deltaE != 0):
             # Recover any retraction recorded from the excluded region before the next
-            # extrusion occurs
+            # extrusion occurs.  The recovery must be generated relative to the extruder position
+            # before this move, otherwise the move itself would not extrude anything.
+            newE = eAxis.current
+            eAxis.current = priorE
             returnCommands = self.recoverRetractionIfNeeded(cmd, False)
+            eAxis.current = newE
         else:
             returnCommands = [cmd]
 
